@@ -369,5 +369,86 @@ class RunBoundaries(Histories):
         return f"{case['ens']}:first-of-new-run={''.join(sorted(set(firsts)))}" if firsts else None
 
 
+class HamiltonianExchange(common.Suite):
+    """the shipped `HamiltonianExchangeContext` (hybrid grand-canonical / Hamiltonian simulations: a GrandCanonical whose
+    context also remembers momenta): rejected insertions and deletions restore the atoms bit for bit, momenta included.
+    Oracle only (the M-machine has no such ensemble)."""
+
+    name = "hamiltonian-exchange-context"
+
+    def cases(self, rng, tier):
+        n = 24 if tier == "quick" else 240
+        for i in range(n):
+            yield {"natoms": rng.randint(2, 6), "bias": [0.0, 1.0, 0.5][i % 3], "seed": rng.randrange(1, 2**31),
+                   "trials": [rng.random() < 0.4 for _ in range(rng.randint(2, 6))], "molecule": i % 4 == 3}
+
+    def real(self, case):
+        import warnings
+
+        import numpy as np
+        import quansino.mc  # noqa: F401
+        from ase import Atoms
+        from quansino.mc.contexts import HamiltonianExchangeContext
+        from quansino.mc.criteria import BaseCriteria
+        from quansino.mc.gcmc import GrandCanonical
+        from quansino.moves.exchange import ExchangeMove
+
+        class Hybrid(GrandCanonical):
+            default_context = HamiltonianExchangeContext
+
+        class Verdict(BaseCriteria):
+            verdict = False
+
+            def evaluate(self, context):
+                context.atoms.get_potential_energy()
+                return self.verdict
+
+        rs = np.random.default_rng(case["seed"])
+        n = case["natoms"]
+        atoms = Atoms(f"Cu{n}", positions=rs.uniform(0, 8, (n, 3)), cell=[9.0, 9.0, 9.0], pbc=True)
+        atoms.set_momenta(rs.normal(size=(n, 3)))
+        atoms.set_tags(np.arange(n))
+        atoms.calc = machine.make_calc()
+        tmpl = Atoms("H2", positions=[[0, 0, 0], [0, 0, 0.74]]) if case["molecule"] else Atoms("Ag")
+        out = []
+        with warnings.catch_warnings():
+            warnings.simplefilter("ignore")
+            mc = Hybrid(atoms, exchange_atoms=tmpl, temperature=300.0, seed=case["seed"], max_cycles=1,
+                        number_of_exchange_particles=n)
+            crit = Verdict()
+            mc.add_move(ExchangeMove(np.arange(n), bias_towards_insert=case["bias"]), criteria=crit, name="x")
+            for accept in case["trials"]:
+                crit.verdict = accept
+                before = {k: v.tobytes() for k, v in atoms.arrays.items()}
+                names = sorted(atoms.arrays)
+                try:
+                    mc.run(1)
+                except Exception as e:  # noqa: BLE001
+                    out.append({"accept": accept, "exception": type(e).__name__, "message": str(e)[:160]})
+                    break
+                verdict = mc.move_history[-1][1]
+                same = sorted(atoms.arrays) == names and all(atoms.arrays[k].tobytes() == before[k] for k in names)
+                out.append({"accept": accept, "verdict": verdict, "same": same, "natoms": len(atoms),
+                            "labels": len(mc.moves["x"].move.labels)})
+        return {"trials": out}
+
+    def oracle(self, case, obs):
+        if "exception" in obs:
+            return [("hybrid:harness-exception:" + obs["exception"], obs.get("message", "") + obs.get("trace", "")[-300:])]
+        out = []
+        for k, t in enumerate(obs["trials"]):
+            if "exception" in t:
+                out.append((f"hybrid:exception:{t['exception']}", f"trial {k} (verdict would be {t['accept']}): {t['message']}"))
+                break
+            if t["verdict"] is not True and not t["same"]:
+                out.append(("hybrid:rejected-trial-not-restored", f"trial {k}: atoms differ after a rejected/failed trial"))
+            if t["natoms"] != t["labels"]:
+                out.append(("hybrid:labels-out-of-step", f"trial {k}: {t['labels']} labels for {t['natoms']} atoms"))
+        return out[:3]
+
+    def classify(self, case, obs):
+        return f"bias={case['bias']}:mol={case['molecule']}"
+
+
 def suites(tier):
-    return [Histories(), CollectiveConstraintHistories(), RunBoundaries(), FractionalCellHistories()]
+    return [Histories(), CollectiveConstraintHistories(), RunBoundaries(), FractionalCellHistories(), HamiltonianExchange()]
